@@ -177,7 +177,10 @@ def _work_batch(args):
                         return r, None
                     r, m = attempt(0)
                     tries = 0
-                    while r == z3.unknown and tries < (7 if ob.kind.startswith("roundtrip") else 4):
+                    # retries and second opinions are for the occasional flaky query; once several obligations of
+                    # this batch stayed undecided after all of them the batch is not green anyway
+                    patient = res.get("hard", 0) < 3
+                    while patient and r == z3.unknown and tries < (7 if ob.kind.startswith("roundtrip") else 4):
                         tries += 1
                         r, m = attempt(tries * 17)
                     status = str(r)
@@ -189,7 +192,7 @@ def _work_batch(args):
                             model = dict(list(model.items())[:25])
                         except Exception:
                             model = None
-                    elif r == z3.unknown:
+                    elif r == z3.unknown and patient:
                         # second opinion on the SMT-LIB text
                         from pyvc import solve
                         solve._OBLS = [ob]
@@ -201,6 +204,9 @@ def _work_batch(args):
                                 break
                 dt = time.time() - t0
                 res["solver_s"] += dt
+                if status == "unknown" and ob.kind != "variant":
+                    # (termination obligations at the call sites of the known finding stay `unknown` by nature)
+                    res["hard"] = res.get("hard", 0) + 1
                 return (ob.name, ob.kind, ob.fn, status, backend, round(dt, 4),
                         {k: v for k, v in ob.info.items() if k in ("why", "property", "clause")}, model)
             solved = solve_all(obls)
